@@ -151,6 +151,18 @@ def test_regex_ops(n=2500, seed=1):
             ("subn", rx.subn("-", s), regex_sub(eng.I, W, rx, "-", s, 0, 0, True)),
             ("spans", [m.span() for m in rx.finditer(s)], [(m.s, m.e) for m in all_matches(eng.I, W, rx.pattern, s, int(rx.flags & ~re.UNICODE))]),
         ]
+        # Pattern.finditer(s, pos): pos does not slice ('^' / look-behind see what stands before it)
+        from pysym.regex import SFindIter
+        p0 = rnd.randint(0, len(s) + 1)
+        it = SFindIter(rx.pattern, s, int(rx.flags & ~re.UNICODE))
+        it.pos = min(p0, len(s))
+        got_spans = []
+        while True:
+            okm, m = it.next_item(eng.I, W)
+            if not okm:
+                break
+            got_spans.append((m.s, m.e))
+        pairs.append(("finditer-pos", [m.span() for m in rx.finditer(s, p0)], got_spans))
         for kind in ("match", "search", "fullmatch"):
             r = getattr(rx, kind)(s)
             g = regex_once(eng.I, W, kind, rx, s, 0)
@@ -161,7 +173,7 @@ def test_regex_ops(n=2500, seed=1):
                 bad += 1
                 if bad < 6:
                     print("regex op mismatch", kind, repr(pat), fl, repr(s), "model", got, "re", real)
-    return n * 8, bad
+    return n * 9, bad
 
 
 def test_str_methods(n=200, seed=3):
